@@ -46,6 +46,134 @@ fn run_families(report: &Report, fams: Vec<PoolSlotSys>, max_states: usize, secs
     })
 }
 
+/// Runs a generated (large) list of small families to closure and aggregates the statistics.
+fn run_generated(report: &Report, label: &str, fams: Vec<PoolSlotSys>, deadline_secs: u64) -> Value {
+    let started = std::time::Instant::now();
+    let mut total = BfsStats::default();
+    let mut done = 0usize;
+    let mut capped = None;
+    let mut sample = Value::Null;
+    for f in &fams {
+        if started.elapsed().as_secs() > deadline_secs {
+            capped = Some(format!("wall clock after {done} of {} generated families", fams.len()));
+            break;
+        }
+        let limits = BfsLimits::new(f.ops.len() + 1, 2_000_000, 120);
+        let st = bfs(f, &f.name, &limits, report);
+        if st.capped.is_some() && capped.is_none() {
+            capped = st.capped.clone();
+        }
+        if done == fams.len() / 2 {
+            sample = json!({"system": f.name, "alphabet": f.ops.iter().map(|o| o.show()).collect::<Vec<_>>(), "states": st.states});
+        }
+        st.merge_into(&mut total);
+        done += 1;
+    }
+    println!("  {label}: generated families={} explored to closure={} states={} transitions={} outcomes={} capped={:?}", fams.len(), done, total.states, total.transitions, total.distinct_outcomes, capped);
+    json!({"system": label, "generated_families": fams.len(), "families_explored_to_closure": done, "states": total.states, "transitions": total.transitions, "distinct_outcomes": total.distinct_outcomes, "capped": capped, "sample_family": sample})
+}
+
+/// C06, systematic: every assignment of a slot-2 vote {none, notar a, notar b, skip} to every
+/// validator (own id 0 included), two children a, b of one parent, the parent certified by a
+/// received notarization / fast-final certificate or by votes.
+fn generated_c06(stakes: &[u64], tag: &str, stride: usize) -> Vec<PoolSlotSys> {
+    let n = stakes.len();
+    let epoch = Arc::new(make_epoch(stakes));
+    // smallest set of non-own validators reaching 60 % / 80 %
+    let pick = |num: u128, den: u128| -> Vec<usize> {
+        let total: u128 = stakes.iter().map(|s| *s as u128).sum();
+        let mut v = Vec::new();
+        let mut acc = 0u128;
+        for i in 1..n {
+            if acc * den >= total * num {
+                break;
+            }
+            v.push(i);
+            acc += stakes[i] as u128;
+        }
+        if acc * den >= total * num { v } else { (0..n).collect() }
+    };
+    let q60 = pick(3, 5);
+    let q80 = pick(4, 5);
+    let mut out = Vec::new();
+    let mut idx = 0usize;
+    for code in 0..4usize.pow(n as u32) {
+        let assign: Vec<usize> = (0..n).map(|i| code / 4usize.pow(i as u32) % 4).collect();
+        // the signals concern the node's own vote: skip assignments in which it never votes
+        if assign[0] == 0 {
+            continue;
+        }
+        for mode in ["parent-notar-cert", "parent-by-votes", "parent-fast-final-cert"] {
+            idx += 1;
+            if idx % stride != 0 {
+                continue;
+            }
+            let mut ops = Vec::new();
+            for (i, a) in assign.iter().enumerate() {
+                match a {
+                    1 => ops.extend(votes(N, 2, 0, &[i])),
+                    2 => ops.extend(votes(N, 2, 1, &[i])),
+                    3 => ops.extend(votes(S, 2, 0, &[i])),
+                    _ => {}
+                }
+            }
+            ops.push(block(2, 0, 1, 0));
+            ops.push(block(2, 1, 1, 0));
+            match mode {
+                "parent-notar-cert" => ops.push(cert(CK::Notar, 1, 0, &q60, &[])),
+                "parent-by-votes" => ops.extend(votes(N, 1, 0, &q60)),
+                _ => ops.push(cert(CK::FastFinal, 1, 0, &q80, &[])),
+            }
+            let name = format!("gen-{tag}-{}-{mode}", assign.iter().map(|a| ["-", "a", "b", "s"][*a]).collect::<String>());
+            out.push(PoolSlotSys::new(&name, epoch.clone(), 0, ops, "C06"));
+        }
+    }
+    out
+}
+
+/// C03, systematic: every assignment of one of ten vote sets to every validator of a small stake
+/// vector in one slot with two blocks (conflicting combinations included; refused votes simply do
+/// not count), every delivery order.
+fn generated_c03(stakes: &[u64], tag: &str, stride: usize) -> Vec<PoolSlotSys> {
+    let n = stakes.len();
+    let epoch = Arc::new(make_epoch(stakes));
+    let menu: Vec<(&str, Vec<(VK, u8)>)> = vec![
+        ("-", vec![]),
+        ("Na", vec![(N, 0)]),
+        ("Nb", vec![(N, 1)]),
+        ("S", vec![(S, 0)]),
+        ("NaF", vec![(N, 0), (F, 0)]),
+        ("NaNFb", vec![(N, 0), (NF, 1)]),
+        ("NbNFa", vec![(N, 1), (NF, 0)]),
+        ("SSF", vec![(S, 0), (SF, 0)]),
+        ("SNFa", vec![(S, 0), (NF, 0)]),
+        ("NaSF", vec![(N, 0), (SF, 0)]),
+    ];
+    let m = menu.len();
+    let mut out = Vec::new();
+    let mut idx = 0usize;
+    for code in 0..m.pow(n as u32) {
+        let assign: Vec<usize> = (0..n).map(|i| code / m.pow(i as u32) % m).collect();
+        let nvotes: usize = assign.iter().map(|a| menu[*a].1.len()).sum();
+        if nvotes < 2 || nvotes > 7 {
+            continue;
+        }
+        idx += 1;
+        if idx % stride != 0 {
+            continue;
+        }
+        let mut ops = Vec::new();
+        for (i, a) in assign.iter().enumerate() {
+            for (k, b) in &menu[*a].1 {
+                ops.extend(votes(*k, 1, *b, &[i]));
+            }
+        }
+        let name = format!("gen-{tag}-{}", assign.iter().map(|a| menu[*a].0).collect::<Vec<_>>().join("."));
+        out.push(PoolSlotSys::new(&name, epoch.clone(), n - 1, ops, "C03"));
+    }
+    out
+}
+
 const N: VK = VK::Notar;
 const NF: VK = VK::NotarFb;
 const S: VK = VK::Skip;
@@ -302,7 +430,22 @@ pub fn run_c03(tier: Tier) -> i32 {
             "C03",
         ));
     }
-    let cov = run_families(&report, fams, tier.pick(3_000_000, 60_000_000), tier.pick(50, 850));
+    let mut cov = run_families(&report, fams, tier.pick(3_000_000, 60_000_000), tier.pick(50, 850));
+    let generated = vec![
+        run_generated(&report, "generated/E3-equal", generated_c03(&[1, 1, 1], "E3", tier.pick(5, 1)), tier.pick(10, 300)),
+        run_generated(&report, "generated/W3-40-30-30", generated_c03(&[40, 30, 30], "W3", tier.pick(5, 1)), tier.pick(10, 300)),
+        run_generated(&report, "generated/K4", generated_c03(&[19, 27, 27, 27], "K4", tier.pick(97, 7)), tier.pick(10, 400)),
+    ];
+    for g in &generated {
+        cov["states"] = json!(cov["states"].as_u64().unwrap_or(0) + g["states"].as_u64().unwrap_or(0));
+        cov["transitions"] = json!(cov["transitions"].as_u64().unwrap_or(0) + g["transitions"].as_u64().unwrap_or(0));
+        cov["traces_validated_against_impl"] = cov["transitions"].clone();
+        if !g["capped"].is_null() {
+            cov["exhaustive"] = json!(false);
+            cov["capped"] = g["capped"].clone();
+        }
+    }
+    cov["generated_families"] = json!(generated);
     report.finish(cov)
 }
 
@@ -417,6 +560,22 @@ pub fn run_c06(tier: Tier) -> i32 {
             "C06",
         ));
     }
-    let cov = run_families(&report, fams, tier.pick(3_000_000, 60_000_000), tier.pick(50, 850));
+    let mut cov = run_families(&report, fams, tier.pick(3_000_000, 60_000_000), tier.pick(50, 850));
+    // systematic families (every vote assignment), quick: a thin slice of them
+    let generated = vec![
+        run_generated(&report, "generated/T5-equal", generated_c06(&[1, 1, 1, 1, 1], "T5", tier.pick(13, 1)), tier.pick(15, 500)),
+        run_generated(&report, "generated/K4", generated_c06(&[19, 27, 27, 27], "K4", tier.pick(5, 1)), tier.pick(10, 200)),
+        run_generated(&report, "generated/X4-own-heavy", generated_c06(&[41, 20, 20, 19], "X4", tier.pick(5, 1)), tier.pick(10, 200)),
+    ];
+    for g in &generated {
+        cov["states"] = json!(cov["states"].as_u64().unwrap_or(0) + g["states"].as_u64().unwrap_or(0));
+        cov["transitions"] = json!(cov["transitions"].as_u64().unwrap_or(0) + g["transitions"].as_u64().unwrap_or(0));
+        cov["traces_validated_against_impl"] = cov["transitions"].clone();
+        if !g["capped"].is_null() {
+            cov["exhaustive"] = json!(false);
+            cov["capped"] = g["capped"].clone();
+        }
+    }
+    cov["generated_families"] = json!(generated);
     report.finish(cov)
 }
